@@ -54,7 +54,7 @@ package geom
 
 //@ func (b *Bounds) Empty
 //@   prop C04
-//@   mode fp
+//@   mode xreal
 //@   requires [nonnil] b != nil
 //@   ensures [no_point] noNaNBox(*b) ==> (result <==> !(exists x float64, y float64 :: inBox(*b, x, y)))
 //@   modifies nothing
@@ -64,7 +64,7 @@ package geom
 
 //@ func (b *Bounds) Overlaps
 //@   prop C04
-//@   mode fp
+//@   mode xreal
 //@   requires [nonnil] b != nil && b2 != nil
 //@   ensures [sound] noNaNBox(*b) && noNaNBox(*b2) && result ==> inBox(*b, goMax(b.Min.X, b2.Min.X), goMax(b.Min.Y, b2.Min.Y)) && inBox(*b2, goMax(b.Min.X, b2.Min.X), goMax(b.Min.Y, b2.Min.Y))
 //@   ensures [complete] noNaNBox(*b) && noNaNBox(*b2) && (exists x float64, y float64 :: inBox(*b, x, y) && inBox(*b2, x, y)) ==> result
@@ -151,7 +151,7 @@ package geom
 
 //@ func (b *Bounds) Extend
 //@   prop C04
-//@   mode fp
+//@   mode xreal
 //@   requires [nonnil] b != nil
 //@   ensures [nil_noop] b2 == nil ==> biteq(*b, old(*b))
 //@   ensures [join_min] b2 != nil && old(noNaNBox(*b) && noNaNBox(*b2)) ==> b.Min.X == goMin(old(b.Min.X), old(b2.Min.X)) && b.Min.Y == goMin(old(b.Min.Y), old(b2.Min.Y))
@@ -290,7 +290,7 @@ package geom
 
 //@ func (b *Bounds) Intersection
 //@   prop C01, C04
-//@   mode fp
+//@   mode xreal
 //@   opt boxcase
 //@   requires [nonnil] b != nil && p != nil
 //@   requires [boxcase] typeof(p) == *Bounds && p.(*Bounds) != nil
